@@ -55,6 +55,38 @@ CHECKS["C11"] = dict(
     technique="bounded-exhaustive metamorphic comparison (both configurations of every enumerated input) with AST-level annotation erasure",
 )
 
+_CTX = "9 contexts (top level, function, method, for, while, then, else, match arm, handle arm) at nesting depth 1 in the quick tier and all 73 compositions of depth <= 2 in the thorough tier (an inner function/method context means 'in a function called from the enclosing position')"
+CHECKS["C05"] = dict(
+    category="exploration",
+    text="Complete product of " + _CTX + " x payload kinds x all 49 type pairs over {Int, Float, Str, Bool, A, B<:A, U}: function / method / constructor call (class arguments and explicit __init__), second argument, argument that is itself a call or method call, annotated variable, reassignment, field assignment, return statement (also in a branch), implicit last expression (line and block), method return, field initialiser, value taken from a call / method call / self-method call as body, return value, initialiser; all arities 0-3 against a signature with one default for call, method and constructor; sibling branches (if/else, match arms, handle arms, handle binders) each defining a same-named local of unrelated type with a nested if/match/handle in the first. Conforming (T <= P) must be accepted, every single-point non-conforming variant rejected - both directions are violations.",
+    design_ref="DESIGN.md §4 C05", note="Expectation by construction from the documented order (T == P, Int <= Float, B <= A). One unrepaired defect (self.m() body unchecked) is delimited by C05-F1.",
+    technique="bounded-exhaustive contexts x payloads x types enumeration with verdicts expected by construction",
+)
+CHECKS["C06"] = dict(
+    category="exploration",
+    text="Complete product of " + _CTX + " x consuming positions (initialiser, reassignment, field assignment, argument, method argument, constructor argument, parameter with default, return, implicit last expression, operand either side, receiver) x nullable producers (None, T? variable holding None or a value, T?-returning call, if-expression with a None branch, nullable field) x T in {Int, Str, class}, plus a nullable value of a strict subtype into a non-nullable ancestor (Int? -> Float, B? -> A): all must be rejected; the accepting dual (T, None, T? into T?; `x ? d` into T; nullable return/field); and all 49 combinations of assignment paths (always, then-only, else-only, both branches, one match arm, all match arms, never) of two non-nullable fields in a constructor.",
+    design_ref="DESIGN.md §4 C06", note="Five unrepaired checker defects are delimited by C06-F1..F5 (zones by payload kind and producer).",
+    technique="bounded-exhaustive contexts x positions x producers enumeration with verdicts expected by construction",
+)
+CHECKS["C07"] = dict(
+    category="exploration",
+    text="Complete product of " + _CTX + " x definition forms (annotated / inferred variable, tuple destructuring, parameter, for variable, class argument, body field, fin self, fin receiver variable, property chains of length 2 with fin at each link, never defined) x 7 assignment operators (:= and every compound operator; /= on Float) x shadowing shapes (fin-then-mutable and mutable-then-fin with same and other type, inferred, inside a branch used inside / after it, parameter shadowed), plus flat and nested tuple reassignment with the fin variable or fin parameter at every position. fin targets must be rejected, mutable ones accepted.",
+    design_ref="DESIGN.md §4 C07", note="Unenforced fin fields (C07-F1) are a known finding; calling a mutating method on a fin receiver is not stated by the documentation and not judged.",
+    technique="bounded-exhaustive contexts x definition forms x assignment forms enumeration with verdicts expected by construction",
+)
+CHECKS["C08"] = dict(
+    category="exploration",
+    text="Hierarchy Exception > E1 > E2, Exception > E3, non-exception N. Complete product of 7 positions inside a function body (statement, initialiser, in if, in loop, in match arm, inside an arm of an outer handle, after a complete handle) x every declared set of <= 2 classes of the host x every ordered arm list of <= 2 classes x (direct raise of each class | call of a callee declaring each raise set of <= 2 classes, with each member actually raised): accepted iff every raisable class has an ancestor-or-self among arms + declared. Accepted programs are executed: the arm that runs must be the first whose class is an ancestor-or-self of the raised class, otherwise the exception must escape to the top-level handle. Declaring a non-exception class must be refused.",
+    design_ref="DESIGN.md §4 C08", note="Quick tier prunes combined declared+arms size > 2 outside the statement/initialiser positions; thorough runs the full product.",
+    technique="bounded-exhaustive enumeration of raise/declare/handle configurations with static expectation by construction and executed dynamic oracle",
+)
+CHECKS["C09"] = dict(
+    category="exploration",
+    text="Complete product of " + _CTX + " x 5 use forms (print, initialiser, argument, operand, right side of reassignment) x definition/use shapes: positives (earlier in the same or an enclosing block / loop / match arm, loop variable, match capture inside its arm, parameter, after reassignment, shadowing with a new type, two nesting levels) must be accepted and run without NameError / UnboundLocalError / AttributeError; negatives (never, later, then-only with and without else, else-only, one match arm, earlier arm's definition or capture read in a later arm, capture outside, loop body / loop variable after the loop, handle-arm definition and binder after and in a later arm, another function's local, nested then-only, shadowed with the wrong type, comprehension variable) must be rejected; constructor field reads before / after / on one path.",
+    design_ref="DESIGN.md §4 C09", note="'Defined in both branches, used after' is unspecified and not judged; ordering of top-level definitions versus function bodies is kept out of this space.",
+    technique="bounded-exhaustive contexts x definition-site x use-site enumeration with verdicts expected by construction, positives executed",
+)
+
 REASON_PENDING = "check not built yet in this session (see DESIGN.md Appendix D build order); nothing is claimed for it"
 
 
